@@ -1037,8 +1037,185 @@ func ruleLatch(c *Ctx) *RuleResult {
 			r.viol(key, pos, fname(fn), problem)
 		}
 	}
+	ordOf := map[*ssa.Function]int{}
+	var handle func(fn *ssa.Function, call *ssa.Call, arg ssa.Value, depth int)
+	handle = func(fn *ssa.Function, call *ssa.Call, arg ssa.Value, depth int) {
+		// the sorted object: what was boxed, or the interface value itself
+		obj := arg
+		for {
+			if mi, ok := obj.(*ssa.MakeInterface); ok {
+				obj = mi.X
+				continue
+			}
+			if ci, ok := obj.(*ssa.ChangeInterface); ok {
+				obj = ci.X
+				continue
+			}
+			break
+		}
+		// the adapter types it can be
+		var adapters []*types.Named
+		if pt, ok := obj.Type().(*types.Pointer); ok {
+			if n, ok := pt.Elem().(*types.Named); ok {
+				adapters = append(adapters, n)
+			}
+		} else if it, ok := obj.Type().Underlying().(*types.Interface); ok {
+			for _, m := range c.SLib.Members {
+				tm, ok := m.(*ssa.Type)
+				if !ok {
+					continue
+				}
+				n, ok := tm.Type().(*types.Named)
+				if !ok {
+					continue
+				}
+				if _, isIface := n.Underlying().(*types.Interface); isIface {
+					continue
+				}
+				if types.Implements(types.NewPointer(n), it) || types.Implements(n, it) {
+					adapters = append(adapters, n)
+				}
+			}
+		}
+		var l *latch
+		all := len(adapters) > 0
+		for _, A := range adapters {
+			fam := structFamily(A)
+			found := false
+			for i := range latches {
+				if fam[latches[i].T] {
+					l = &latches[i]
+					found = true
+				}
+			}
+			if !found {
+				all = false
+			}
+		}
+		if l == nil {
+			return
+		}
+		r.Instances++
+		ordOf[fn]++
+		ord := ordOf[fn]
+		key := fmt.Sprintf("%s|%s#%d", fname(fn), l.T.Obj().Name(), ord)
+		pos := c.pos(call.Pos())
+		if !all {
+			r.undecided(key, pos, fname(fn), "the sorted value can be an adapter without the failure latch")
+			return
+		}
+		lt := l
+		// getter: a method all of whose returns yield the latch of its receiver
+		isGetter := func(f *ssa.Function) bool {
+			if f == nil || f.Blocks == nil || f.Signature.Recv() == nil || len(f.Params) == 0 || f.Signature.Results().Len() != 1 {
+				return false
+			}
+			// a promoted method reaches the declared one through a wrapper
+			if f.Synthetic != "" {
+				for _, b := range f.Blocks {
+					for _, in := range b.Instrs {
+						if cl, ok := in.(*ssa.Call); ok {
+							if sc := staticCallee(cl); sc != nil && sc.Name() == f.Name() {
+								f = sc
+							}
+						}
+					}
+				}
+			}
+			n := 0
+			for _, b := range f.Blocks {
+				ret := blockReturn(b)
+				if ret == nil {
+					continue
+				}
+				n++
+				ld, ok := retResults(ret)[0].(*ssa.UnOp)
+				if !ok || ld.Op != token.MUL {
+					return false
+				}
+				owner, fld, ok := chainField(ld.X, f.Params[0])
+				if !ok || owner != lt.T || fld != lt.field {
+					return false
+				}
+			}
+			return n > 0
+		}
+		rootedAt := func(v ssa.Value) bool {
+			for i := 0; i < 4; i++ {
+				if v == obj {
+					return true
+				}
+				fa, ok := v.(*ssa.FieldAddr)
+				if !ok || !isEmbeddedField(fa) {
+					return false
+				}
+				v = fa.X
+			}
+			return false
+		}
+		latchRead := func(v ssa.Value) bool {
+			switch v := v.(type) {
+			case *ssa.UnOp:
+				if v.Op != token.MUL {
+					return false
+				}
+				owner, fld, ok := chainField(v.X, obj)
+				return ok && owner == lt.T && fld == lt.field
+			case *ssa.Call:
+				if v.Call.IsInvoke() {
+					if v.Call.Value != obj {
+						return false
+					}
+					for _, A := range adapters {
+						m := c.Prog.LookupMethod(types.NewPointer(A), v.Call.Method.Pkg(), v.Call.Method.Name())
+						if !isGetter(m) {
+							return false
+						}
+					}
+					return len(adapters) > 0
+				}
+				if sc := staticCallee(v); sc != nil && len(v.Call.Args) > 0 && rootedAt(v.Call.Args[0]) {
+					return isGetter(sc)
+				}
+			}
+			return false
+		}
+		// a helper that sorts what it is handed and leaves the test to its
+		// callers: the obligation is theirs, with their argument as the object
+		if par, isPar := obj.(*ssa.Parameter); isPar && depth < 3 {
+			reads := false
+			for _, bb := range fn.Blocks {
+				for _, ii := range bb.Instrs {
+					if v, isV := ii.(ssa.Value); isV && latchRead(v) {
+						reads = true
+					}
+				}
+			}
+			pi := -1
+			for k, q := range fn.Params {
+				if q == par {
+					pi = k
+				}
+			}
+			if !reads && pi >= 0 {
+				nsites := 0
+				for _, caller := range allFuncs(c.SLib) {
+					for _, cs := range callsTo(caller, fn) {
+						if pi < len(cs.Call.Args) {
+							nsites++
+							handle(caller, cs, cs.Call.Args[pi], depth+1)
+						}
+					}
+				}
+				if nsites > 0 {
+					r.Instances--
+					return
+				}
+			}
+		}
+		afterSort(fn, call, key, pos, l.isErr, l.T.Obj().Name()+".Less", latchRead)
+	}
 	for _, fn := range allFuncs(c.SLib) {
-		ord := 0
 		for _, b := range fn.Blocks {
 			for _, in := range b.Instrs {
 				call, ok := in.(*ssa.Call)
@@ -1049,145 +1226,7 @@ func ruleLatch(c *Ctx) *RuleResult {
 				if n != "sort.Stable" && n != "sort.Sort" {
 					continue
 				}
-				// the sorted object: what was boxed, or the interface value itself
-				obj := call.Call.Args[0]
-				for {
-					if mi, ok := obj.(*ssa.MakeInterface); ok {
-						obj = mi.X
-						continue
-					}
-					if ci, ok := obj.(*ssa.ChangeInterface); ok {
-						obj = ci.X
-						continue
-					}
-					break
-				}
-				// the adapter types it can be
-				var adapters []*types.Named
-				if pt, ok := obj.Type().(*types.Pointer); ok {
-					if n, ok := pt.Elem().(*types.Named); ok {
-						adapters = append(adapters, n)
-					}
-				} else if it, ok := obj.Type().Underlying().(*types.Interface); ok {
-					for _, m := range c.SLib.Members {
-						tm, ok := m.(*ssa.Type)
-						if !ok {
-							continue
-						}
-						n, ok := tm.Type().(*types.Named)
-						if !ok {
-							continue
-						}
-						if _, isIface := n.Underlying().(*types.Interface); isIface {
-							continue
-						}
-						if types.Implements(types.NewPointer(n), it) || types.Implements(n, it) {
-							adapters = append(adapters, n)
-						}
-					}
-				}
-				var l *latch
-				all := len(adapters) > 0
-				for _, A := range adapters {
-					fam := structFamily(A)
-					found := false
-					for i := range latches {
-						if fam[latches[i].T] {
-							l = &latches[i]
-							found = true
-						}
-					}
-					if !found {
-						all = false
-					}
-				}
-				if l == nil {
-					continue
-				}
-				r.Instances++
-				ord++
-				key := fmt.Sprintf("%s|%s#%d", fname(fn), l.T.Obj().Name(), ord)
-				pos := c.pos(call.Pos())
-				if !all {
-					r.undecided(key, pos, fname(fn), "the sorted value can be an adapter without the failure latch")
-					continue
-				}
-				lt := l
-				// getter: a method all of whose returns yield the latch of its receiver
-				isGetter := func(f *ssa.Function) bool {
-					if f == nil || f.Blocks == nil || f.Signature.Recv() == nil || len(f.Params) == 0 || f.Signature.Results().Len() != 1 {
-						return false
-					}
-					// a promoted method reaches the declared one through a wrapper
-					if f.Synthetic != "" {
-						for _, b := range f.Blocks {
-							for _, in := range b.Instrs {
-								if cl, ok := in.(*ssa.Call); ok {
-									if sc := staticCallee(cl); sc != nil && sc.Name() == f.Name() {
-										f = sc
-									}
-								}
-							}
-						}
-					}
-					n := 0
-					for _, b := range f.Blocks {
-						ret := blockReturn(b)
-						if ret == nil {
-							continue
-						}
-						n++
-						ld, ok := retResults(ret)[0].(*ssa.UnOp)
-						if !ok || ld.Op != token.MUL {
-							return false
-						}
-						owner, fld, ok := chainField(ld.X, f.Params[0])
-						if !ok || owner != lt.T || fld != lt.field {
-							return false
-						}
-					}
-					return n > 0
-				}
-				rootedAt := func(v ssa.Value) bool {
-					for i := 0; i < 4; i++ {
-						if v == obj {
-							return true
-						}
-						fa, ok := v.(*ssa.FieldAddr)
-						if !ok || !isEmbeddedField(fa) {
-							return false
-						}
-						v = fa.X
-					}
-					return false
-				}
-				afterSort(fn, call, key, pos, l.isErr, l.T.Obj().Name()+".Less", func(v ssa.Value) bool {
-					switch v := v.(type) {
-					case *ssa.UnOp:
-						if v.Op != token.MUL {
-							return false
-						}
-						owner, fld, ok := chainField(v.X, obj)
-						return ok && owner == lt.T && fld == lt.field
-					case *ssa.Call:
-						if v.Call.IsInvoke() {
-							if v.Call.Value != obj {
-								return false
-							}
-							for _, A := range adapters {
-								m := c.Prog.LookupMethod(types.NewPointer(A), v.Call.Method.Pkg(), v.Call.Method.Name())
-								if !isGetter(m) {
-									return false
-								}
-							}
-							return len(adapters) > 0
-						}
-						if sc := staticCallee(v); sc != nil && len(v.Call.Args) > 0 && rootedAt(v.Call.Args[0]) {
-							return isGetter(sc)
-						}
-					}
-					return false
-				})
+				handle(fn, call, call.Call.Args[0], 0)
 			}
 		}
 	}
